@@ -34,8 +34,12 @@ Definition c_rbr : N := 93.
 Definition c_bslash : N := 92.
 Definition c_btick : N := 96.
 
-(** Python [str.isspace] on ASCII (the generators stay inside ASCII). *)
-Definition is_space (c : N) : bool := ((9 <=? c) && (c <=? 13)) || ((28 <=? c) && (c <=? 32)).
+(** Python [str.isspace]: the ASCII white space and the other code points Python 3.12 classifies as space
+    (NEL, NBSP, U+1680, U+2000-200A, U+2028, U+2029, U+202F, U+205F, U+3000). *)
+Definition is_space (c : N) : bool :=
+  ((9 <=? c) && (c <=? 13)) || ((28 <=? c) && (c <=? 32)) ||
+  (c =? 133) || (c =? 160) || (c =? 5760) || ((8192 <=? c) && (c <=? 8202)) ||
+  (c =? 8232) || (c =? 8233) || (c =? 8239) || (c =? 8287) || (c =? 12288).
 (** [\w] on ASCII *)
 Definition is_word (c : N) : bool :=
   ((48 <=? c) && (c <=? 57)) || ((65 <=? c) && (c <=? 90)) || ((97 <=? c) && (c <=? 122)) || (c =? 95).
@@ -423,6 +427,29 @@ Section Reader.
     let fi := FileInfo path [] dir in
     read_lines (include_file nfiles [root] fi) fi SAct ls.
 End Reader.
+
+(** * Printed inclusion chain of a report (common/report_rendering/parts/source_location.py, file_inclusion_chain):
+      every link (path as written, line) is printed as (directory of the referrer / path, line); the directory for the
+      next link is the parent of what was printed.  Paths are lists of components (purely lexical, as pathlib). *)
+Definition path := list text.
+Fixpoint report_chain (dir : path) (links : list (path * N)) : list (path * N) :=
+  match links with
+  | [] => []
+  | (p, n) :: r => (dir ++ p, n) :: report_chain (removelast (dir ++ p)) r
+  end.
+
+Definition c_dot : N := 46.
+Fixpoint norm_path_aux (acc : path) (p : path) : path :=      (* os.path.normpath (relative paths), lexically *)
+  match p with
+  | [] => rev acc
+  | c :: r => if text_eqb c [c_dot; c_dot] then norm_path_aux (tl acc) r
+              else if text_eqb c [c_dot] then norm_path_aux acc r
+              else norm_path_aux (c :: acc) r
+  end.
+Definition norm_path (p : path) : path := norm_path_aux [] p.
+(** what is printed: os.path.normpath of (directory of the referrer / path); CASE is relative to the current directory *)
+Definition printed_chain (links : list (path * N)) : list (path * N) :=
+  map (fun e => (norm_path (fst e), snd e)) (report_chain [] links).
 
 (** * Layer (a): ParseSource, character level *)
 Record psrc := PSrc {
